@@ -471,8 +471,9 @@ def start_race(decisions, npeers=2, dial="ok"):
         if isinstance(dial, (list, tuple)):
             # every dial fails at once (ENETUNREACH): nothing stays behind, and the peers are dialled again later
             w.advance(2)
-            left = [s_ for s_ in w.net.open_sockets() if s_ not in (w.node.tcp_sockets or [])]
-            if len(left) > len(w.node.tcp_sockets):
+            listeners = list(w.node.tcp_sockets) + list(w.node.sctp_sockets)
+            left = [s_ for s_ in w.net.open_sockets() if s_ not in listeners]
+            if len(left) > len(listeners):
                 problems.append(("sockets-left-after-failed-dial", f"{left[:4]}"))
         dialled = {a[0] for _, a, _ in w.net.connect_calls}
         if dialled != {f"10.1.1.{i + 1}" for i in range(npeers)}:
